@@ -678,9 +678,10 @@ impl<const N: usize, T> CircularBuffer<N, T> {
         let start = self.start;
         let end = add_mod(self.start, self.size, N);
 
-        let slice = if start < end {
-            // Already contiguous; nothing to do
-            &mut self.items[start..end]
+        let slice = if start < end || end == 0 {
+            // Already contiguous (possibly ending exactly at the end of the array, in which case
+            // `end` wraps around to 0); nothing to do
+            &mut self.items[start..start + self.size]
         } else {
             // Not contiguous; need to rotate
             self.start = 0;
